@@ -287,3 +287,58 @@ def condition_number(E, penv):
     """position magnitude relative to the smallest feature: float32 coordinates carry an error
     of eps*scale, boundary tests of the library are relative to the shape size."""
     return scale_of(E, penv) / max(min_feature(E, penv), 1e-12)
+
+
+def touching(E, penv, tol):
+    """Do two leaf boundaries of the (interior) expression coincide on more than isolated crossing
+    points - shared edges / coinciding end points / tangent discs (checked at the first parameter
+    row)?  The library treats such contact sets inconsistently (known finding D21)."""
+    from . import refgeo as rg
+    I = _strip_boundary(E)
+    if I["t"] == "product":
+        return touching(I["a"], penv, tol) or touching(I["b"], penv, tol)
+    pe1 = {k: v[:1] for k, v in penv.items()} if penv else {}
+    items = []
+
+    def visit(n, chain):
+        if n["t"] in rg.LEAVES:
+            items.append((n, list(chain)))
+        elif n["t"] in ("translate", "rotate"):
+            visit(n["a"], [n] + list(chain))
+        else:
+            for c in rg.children(n):
+                visit(c, chain)
+    visit(I, [])
+    if len(items) < 2:
+        return False
+    var = rg.space_vars(I)[0][0]
+    dim = rg.space_vars(I)[0][1]
+    for li, (leaf, chain) in enumerate(items):
+        if leaf["t"] == "point":
+            continue
+        try:
+            bp, _ = rg.leaf_boundary_points(leaf, _penv_for(leaf, pe1), 16)
+        except (ValueError, KeyError):
+            continue
+        for node in chain:
+            pe = {k: np.repeat(v, len(bp), axis=0) for k, v in pe1.items()}
+            bp = rg.push_forward(node, pe, bp)
+        env = {k: np.repeat(v, len(bp), axis=0) for k, v in pe1.items()}
+        env[var] = bp
+        for lj, (other, ochain) in enumerate(items):
+            if lj == li or other["t"] == "point":
+                continue
+            e2 = dict(env)
+            for node in ochain[::-1]:          # outermost motion first when pulling back
+                e2 = rg.pull_back(node, e2)
+            try:
+                d = rg.leaf_contains_bdist(other, {**_penv_for(other, e2), **e2})[1]
+            except (ValueError, KeyError):
+                continue
+            close = d <= tol
+            if dim == 1:
+                if close.any():
+                    return True
+            elif close.sum() >= 3:
+                return True
+    return False
